@@ -60,6 +60,14 @@ func c05Run(c *core.Ctx) {
 						c05One(c, mkCase(src, f.V, why))
 					}
 				})
+			} else if it.Rule >= 0 && countSub(it.Why, "child") < 2 {
+				// every alternative spelling of every token of the rule- and 2-path-level programs (multi-line
+				// strings, escaped line breaks, number forms: the values decide which position code runs)
+				forDeviations(it, false, true, func(src, why string) {
+					if why != it.Why && c.Next() {
+						c05One(c, mkCase(src, f.V, why))
+					}
+				})
 			}
 		}
 	}
@@ -72,6 +80,9 @@ func c05Run(c *core.Ctx) {
 			if it.R != nil && src == it.Src && c.Next() {
 				c05One(c, mkCase(corpus.Layout(it.R, "\r\n//c\r\n", "\n "), f.V, why))
 			}
+		})
+		forPairs(c, f, pairLevel(c), 1, func(p, s *corpus.Item, src string) {
+			c05One(c, mkCase(src, f.V, "pair of corpus programs"))
 		})
 	}
 	for _, src := range chainPrograms(c) {
